@@ -485,6 +485,18 @@ fn decoders() -> Vec<(&'static str, Box<dyn Fn(&[u8])>)> {
         ("services", Box::new(|b: &[u8]| { let _ = PeerService::deserialize_services(b.to_vec()); })),
         ("version", Box::new(|b: &[u8]| { let _ = Version::deserialize(&b.to_vec()); })),
         ("wallet", Box::new(|b: &[u8]| { let k = key(42); let mut w = Wallet::new(k.private, k.public); w.deserialize_from_disk(b); })),
+        // a golden-ticket transaction as it enters the pool from a peer: the payload is decoded there
+        ("ticket", Box::new(|b: &[u8]| {
+            static RT: std::sync::OnceLock<tokio::runtime::Runtime> = std::sync::OnceLock::new();
+            let rt = RT.get_or_init(|| tokio::runtime::Builder::new_current_thread().build().unwrap());
+            let k = key(43);
+            let wallet = std::sync::Arc::new(tokio::sync::RwLock::new(Wallet::new(k.private, k.public)));
+            let mut mp = saito_core::core::consensus::mempool::Mempool::new(wallet);
+            let mut t = Transaction::default();
+            t.transaction_type = TransactionType::GoldenTicket;
+            t.data = b.to_vec();
+            rt.block_on(mp.add_golden_ticket(t));
+        })),
     ]
 }
 
@@ -533,6 +545,10 @@ fn decode_mode(seed: u64, count: usize, out: &str) {
     seeds.push(("message", Message::BlockHeaderHash([9; 32], 5).serialize(), vec![]));
     seeds.push(("message", Message::GhostChainRequest(5, [9; 32], [8; 32]).serialize(), vec![]));
     seeds.push(("slip", gen_slip(&mut r).serialize_for_net(), vec![]));
+    // (the runtime of the "ticket" decoder is created here, outside the allocation meter)
+    for n in [97usize, 98, 99, 130, 400] {
+        seeds.push(("ticket", (0..n).map(|i| (i * 7 + 1) as u8).collect(), vec![]));
+    }
     seeds.push(("hop", gen_hop(&mut r).serialize_for_net(), vec![]));
     seeds.push(("version", vec![1, 2, 3, 4], vec![]));
     seeds.push(("chainreq", vec![5u8; 72], vec![]));
